@@ -772,10 +772,15 @@ impl VirtualFileSystem for Memfs {
     /// ```
     fn all_dirs<T: AsRef<Path>>(&self, path: T) -> RvResult<Vec<PathBuf>> {
         let mut paths: Vec<PathBuf> = vec![];
-        if !self.is_dir(&path) {
-            return Err(PathError::is_not_dir(&path).into());
-        }
-        for entry in self.entries(path)?.min_depth(1).sort_by_name().dirs() {
+        // Check and snapshot under a single guard so the listing is atomic
+        let entries = {
+            let guard = self.read_guard();
+            if !self._is_dir(&guard, &path) {
+                return Err(PathError::is_not_dir(&path).into());
+            }
+            self._entries(&guard, path)?
+        };
+        for entry in entries.min_depth(1).sort_by_name().dirs() {
             let entry = entry?;
             if entry.is_symlink() {
                 continue; // link exclusion like is_dir and is_file
@@ -808,10 +813,15 @@ impl VirtualFileSystem for Memfs {
     /// ```
     fn all_files<T: AsRef<Path>>(&self, path: T) -> RvResult<Vec<PathBuf>> {
         let mut paths: Vec<PathBuf> = vec![];
-        if !self.is_dir(&path) {
-            return Err(PathError::is_not_dir(&path).into());
-        }
-        for entry in self.entries(path)?.min_depth(1).sort_by_name().files() {
+        // Check and snapshot under a single guard so the listing is atomic
+        let entries = {
+            let guard = self.read_guard();
+            if !self._is_dir(&guard, &path) {
+                return Err(PathError::is_not_dir(&path).into());
+            }
+            self._entries(&guard, path)?
+        };
+        for entry in entries.min_depth(1).sort_by_name().files() {
             let entry = entry?;
             if entry.is_symlink() {
                 continue; // link exclusion like is_dir and is_file
@@ -846,10 +856,15 @@ impl VirtualFileSystem for Memfs {
     /// ```
     fn all_paths<T: AsRef<Path>>(&self, path: T) -> RvResult<Vec<PathBuf>> {
         let mut paths: Vec<PathBuf> = vec![];
-        if !self.is_dir(&path) {
-            return Err(PathError::is_not_dir(&path).into());
-        }
-        for entry in self.entries(path)?.min_depth(1).sort_by_name() {
+        // Check and snapshot under a single guard so the listing is atomic
+        let entries = {
+            let guard = self.read_guard();
+            if !self._is_dir(&guard, &path) {
+                return Err(PathError::is_not_dir(&path).into());
+            }
+            self._entries(&guard, path)?
+        };
+        for entry in entries.min_depth(1).sort_by_name() {
             let entry = entry?;
             paths.push(entry.path_buf());
         }
@@ -1261,10 +1276,15 @@ impl VirtualFileSystem for Memfs {
     /// ```
     fn dirs<T: AsRef<Path>>(&self, path: T) -> RvResult<Vec<PathBuf>> {
         let mut paths: Vec<PathBuf> = vec![];
-        if !self.is_dir(&path) {
-            return Err(PathError::is_not_dir(&path).into());
-        }
-        for entry in self.entries(path)?.min_depth(1).max_depth(1).sort_by_name().dirs() {
+        // Check and snapshot under a single guard so the listing is atomic
+        let entries = {
+            let guard = self.read_guard();
+            if !self._is_dir(&guard, &path) {
+                return Err(PathError::is_not_dir(&path).into());
+            }
+            self._entries(&guard, path)?
+        };
+        for entry in entries.min_depth(1).max_depth(1).sort_by_name().dirs() {
             let entry = entry?;
             if entry.is_symlink() {
                 continue; // link exclusion like is_dir and is_file
@@ -1359,10 +1379,15 @@ impl VirtualFileSystem for Memfs {
     /// ```
     fn files<T: AsRef<Path>>(&self, path: T) -> RvResult<Vec<PathBuf>> {
         let mut paths: Vec<PathBuf> = vec![];
-        if !self.is_dir(&path) {
-            return Err(PathError::is_not_dir(&path).into());
-        }
-        for entry in self.entries(path)?.min_depth(1).max_depth(1).sort_by_name().files() {
+        // Check and snapshot under a single guard so the listing is atomic
+        let entries = {
+            let guard = self.read_guard();
+            if !self._is_dir(&guard, &path) {
+                return Err(PathError::is_not_dir(&path).into());
+            }
+            self._entries(&guard, path)?
+        };
+        for entry in entries.min_depth(1).max_depth(1).sort_by_name().files() {
             let entry = entry?;
             if entry.is_symlink() {
                 continue; // link exclusion like is_dir and is_file
@@ -1837,10 +1862,15 @@ impl VirtualFileSystem for Memfs {
     /// ```
     fn paths<T: AsRef<Path>>(&self, path: T) -> RvResult<Vec<PathBuf>> {
         let mut paths: Vec<PathBuf> = vec![];
-        if !self.is_dir(&path) {
-            return Err(PathError::is_not_dir(&path).into());
-        }
-        for entry in self.entries(path)?.min_depth(1).max_depth(1).sort_by_name() {
+        // Check and snapshot under a single guard so the listing is atomic
+        let entries = {
+            let guard = self.read_guard();
+            if !self._is_dir(&guard, &path) {
+                return Err(PathError::is_not_dir(&path).into());
+            }
+            self._entries(&guard, path)?
+        };
+        for entry in entries.min_depth(1).max_depth(1).sort_by_name() {
             let entry = entry?;
             paths.push(entry.path_buf());
         }
